@@ -349,3 +349,23 @@ contract('gnpy.core.parameters.RoadmParams.__init__', props=['C06'],
                                               "implies(b, self.target_psd_out_mWperGHz == kwargs['target_psd_out_mWperGHz']) and "
                                               "implies(c, self.target_out_mWperSlotWidth == kwargs['target_out_mWperSlotWidth'])")],
          modifies=['self.*'], use_at_calls=False)
+
+# ---------------------------------------------------------------- dual-stage library entries: the output stage limits the output power
+_STAGE = lambda td: obj('Amp', type_def=const(td), type_variety=string(), p_max=real(), gain_flatmax=real(), gain_min=real(),
+                        nf_model=NF_MODEL, nf_fit_coeff=const(None))
+_DUAL = obj('Amp', type_def=const('dual_stage'), type_variety=string(), p_max=real(), gain_flatmax=real(), gain_min=real(),
+            dual_stage_model=obj('<ns>', preamp_variety=const('pre'), booster_variety=const('boost')))
+contract('gnpy.tools.json_io._update_dual_stage', props=['C04'],
+         params={'equipment': dct(Edfa=dct_k({'pre': _STAGE('variable_gain'), 'boost': _STAGE('fixed_gain'), 'dual': _DUAL}))},
+         let={'d': "equipment['Edfa']['dual']", 'pre': "old(equipment['Edfa']['pre'])", 'boost': "old(equipment['Edfa']['boost'])",
+              'gmin': "old(equipment['Edfa']['dual'].gain_min)"},
+         raises={'EquipmentConfigError': "gmin < pre.gain_min"},
+         # a dual-stage amplifier saturates where its output stage (the booster) does; its gain range adds up; each stage's
+         # own figures are kept under the preamp_ / booster_ prefixes for the Friis composition
+         ensures=[('output_power_limit_of_the_output_stage', 'd.p_max == boost.p_max'),
+                  ('gains_add', 'd.gain_flatmax == pre.gain_flatmax + boost.gain_flatmax'),
+                  ('stage_figures_kept', 'd.preamp_gain_flatmax == pre.gain_flatmax and d.preamp_gain_min == pre.gain_min and '
+                                         'd.booster_gain_flatmax == boost.gain_flatmax and d.booster_gain_min == boost.gain_min and '
+                                         "d.preamp_type_def == 'variable_gain' and d.booster_type_def == 'fixed_gain' and "
+                                         'd.preamp_nf_model is pre.nf_model and d.booster_nf_model is boost.nf_model')],
+         modifies=["equipment['Edfa']['dual'].*"], use_at_calls=False)
